@@ -100,14 +100,14 @@ def run(ctx):
         c.tlc_l1(ctx, "Modules.tla", "MC_Modules_dev.cfg", expect_violation="NoDanglingDecl", workers=2)
     M = "Modules.tla"
     if q:
-        c.graph_leg(ctx, M, "modules", "Gen_Modules.cfg", CFG, 300, 7, 2, "Sim_Modules.cfg", 150, 8)
-        c.graph_leg(ctx, M, "modules", "Gen_Modules_re2.cfg", CFG_RE, 300, 7, 2, "Sim_Modules_re.cfg", 150, 8)
-        c.graph_leg(ctx, M, "modules", "Gen_Modules_cyc5.cfg", CFG_CYC, 500, 8, 3)
+        c.graph_leg(ctx, M, "modules", "Gen_Modules.cfg", CFG, 300, 7, 2, "Sim_Modules.cfg", 150, 8, maxfail=5000000)
+        c.graph_leg(ctx, M, "modules", "Gen_Modules_re2.cfg", CFG_RE, 300, 7, 2, "Sim_Modules_re.cfg", 150, 8, maxfail=5000000)
+        c.graph_leg(ctx, M, "modules", "Gen_Modules_cyc5.cfg", CFG_CYC, 500, 8, 3, maxfail=5000000)
     else:
-        c.graph_leg(ctx, M, "modules", "Gen_Modules_d4.cfg", CFG, 5000, 7, 3, "Sim_Modules.cfg", 3000, 8, timeout=3000)
-        c.graph_leg(ctx, M, "modules", "Gen_Modules_re.cfg", CFG_RE, 5000, 7, 3, "Sim_Modules_re.cfg", 3000, 8, timeout=3000)
-        c.graph_leg(ctx, M, "modules", "Gen_Modules_cyc.cfg", CFG_CYC, 5000, 8, 4)
-        c.graph_leg(ctx, M, "modules", "Gen_Modules_cyc4.cfg", CFG_CYC4, 5000, 8, 3, timeout=3000)
+        c.graph_leg(ctx, M, "modules", "Gen_Modules_d4.cfg", CFG, 5000, 7, 3, "Sim_Modules.cfg", 3000, 8, timeout=3000, maxfail=5000000)
+        c.graph_leg(ctx, M, "modules", "Gen_Modules_re.cfg", CFG_RE, 5000, 7, 3, "Sim_Modules_re.cfg", 3000, 8, timeout=3000, maxfail=5000000)
+        c.graph_leg(ctx, M, "modules", "Gen_Modules_cyc.cfg", CFG_CYC, 5000, 8, 4, maxfail=5000000)
+        c.graph_leg(ctx, M, "modules", "Gen_Modules_cyc4.cfg", CFG_CYC4, 5000, 8, 3, timeout=3000, maxfail=5000000)
     ctx.cov["rule"] = ("behaviours = shortest path + one edge for every (state,label) of the TLC-dumped Modules graphs (from the empty manager; "
                        "from a populated manager with re-exports; the complete import/delete/recreate graph over one rule name), all op "
                        "sequences to the all-histories depth, seeded walks, and TLC-simulated behaviours of 8 ops; after every op the Ok/Err result, "
